@@ -541,6 +541,29 @@ func init() {
 			w.Write(N{"id": i + 1, "cfg": N{"div0": r.Intn(4) == 0, "mode": mode, "fuel": 40, "loopmax": 12}, "faces": faces, "progs": progs})
 		}
 		if *tmpl {
+			// holes that END in a statement block, at every nesting depth 1..4, in both template styles
+			lit := func(v int) N { return N{"k": "int", "v": v, "pp": false} }
+			ends := [][]N{
+				{{"k": "if", "c": lit(1), "t": []N{{"k": "expr", "e": N{"k": "assign", "n": "x", "e": lit(5), "pp": false}}}, "e": []N{}, "elif": false}},
+				{{"k": "if", "c": lit(0), "t": []N{{"k": "expr", "e": lit(2)}}, "e": []N{}, "elif": false}},
+				{{"k": "if", "c": lit(0), "t": []N{{"k": "expr", "e": lit(2)}}, "e": []N{{"k": "expr", "e": lit(3)}}, "elif": false}},
+				{{"k": "expr", "e": N{"k": "assign", "n": "y", "e": lit(0), "pp": false}}, {"k": "while", "c": N{"k": "bin", "op": "<", "l": N{"k": "var", "n": "y", "pp": false}, "r": lit(2), "pp": false},
+					"b": []N{{"k": "expr", "e": N{"k": "assign", "n": "y", "e": N{"k": "bin", "op": "+", "l": N{"k": "var", "n": "y", "pp": false}, "r": lit(1), "pp": false}, "pp": false}}}}},
+				{{"k": "expr", "e": lit(7)}},
+			}
+			fid := 910000
+			for depth := 1; depth <= 4; depth++ {
+				for ei, end := range ends {
+					for style := 3; style <= 4; style++ {
+						var e N = N{"k": "tmpl", "q": style, "pp": false, "parts": []N{{"k": "lit", "c": []string{"b"}}, {"k": "hole", "pct": ei%2 == 0, "body": end}, {"k": "lit", "c": []string{"c"}}}}
+						for k := 1; k < depth; k++ {
+							e = N{"k": "tmpl", "q": 3 + (style+k)%2, "pp": false, "parts": []N{{"k": "lit", "c": []string{"a"}}, {"k": "hole", "pct": k%2 == 0, "body": []N{{"k": "expr", "e": e}}}, {"k": "lit", "c": []string{"d"}}}}
+						}
+						fid++
+						w.Write(N{"id": fid, "cfg": N{"div0": false, "mode": -1, "fuel": 40, "loopmax": 12}, "faces": []int{}, "progs": [][]N{{{"k": "expr", "e": e}}}})
+					}
+				}
+			}
 			// nesting depth around the limit: accepted-and-correct or rejected, never wrong
 			for depth := 1; depth <= 23; depth++ {
 				var e N = N{"k": "int", "v": 1, "pp": false}
